@@ -1,4 +1,6 @@
 """C02 - backward of every nn op / layer / loss yields the exact vector-Jacobian product (symreal)."""
+import numpy as np
+
 from ..report import Run
 from ..symreal.pool import run_catalogue
 from ..catalog import nn_ops
@@ -31,4 +33,88 @@ def main(tier="quick", seed=0, procs=None, only=None):
     run.extra["kernel_level_cases"] = len(kc)
     cases = cases + kc + canaries.tensor_canaries()
     run_catalogue(run, cases, seed=seed, procs=procs)
+    try:
+        native_size_part(run, seed)
+    except Exception as e:
+        run.error("native size part failed", e)
     return run.finish()
+
+
+def native_size_part(run, seed):
+    """Bounded, native (float64): sizes the symbolic configurations cannot reach.
+      (a) batch independence: for linear / conv1d / conv2d / batch-free layers the samples of a batch do not interact, so for N in {65, 100, 129} the input gradient of the
+          whole batch is the concatenation, and every parameter gradient the SUM, of what the same call gives on the batch cut into chunks of 1 and of 7 samples (chunks are
+          within the sizes proved symbolically);
+      (b) windows with more than 256 positions (max / avg pooling with kernels 17x17, 20x20, 1-d kernels of 300 and 700): on operands without ties the upstream gradient of
+          each window goes to its arg-max (max) or is spread evenly (avg) -- closed forms."""
+    import synapgrad.nn.functional as NF
+    from synapgrad.tensor import Tensor
+    rng = np.random.RandomState(seed + 21)
+
+    def grads(fn, arrs, flags, g):
+        ts = [Tensor(a.copy(), requires_grad=f) for a, f in zip(arrs, flags)]
+        out = fn(*ts)
+        out.backward(Tensor(g.copy()))
+        return np.array(out.data), [None if t._grad is None else np.array(t._grad) for t in ts]
+    forms = [("nn.functional.linear", lambda x, w, b: NF.linear(x, w, b), lambda N: (rng.randn(N, 3), rng.randn(2, 3), rng.randn(2))),
+             ("nn.functional.conv1d", lambda x, w, b: NF.conv1d(x, w, b, 1, 1, 1), lambda N: (rng.randn(N, 2, 5), rng.randn(3, 2, 2), rng.randn(3))),
+             ("nn.functional.conv2d", lambda x, w, b: NF.conv2d(x, w, b, 2, 1, 1), lambda N: (rng.randn(N, 2, 4, 5), rng.randn(2, 2, 2, 3), rng.randn(2)))]
+    for name, fn, mk in forms:
+        for N in (65, 100, 129):
+            x, w, b = mk(N)
+            run.rt(("batch-independence", name, N))
+            try:
+                o_full = fn(Tensor(x), Tensor(w), Tensor(b))
+                g = rng.randn(*o_full.shape)
+                out, (gx, gw, gb) = grads(fn, (x, w, b), (True, True, True), g)
+                bad = None
+                for chunk in (1, 7):
+                    px, pw, pb, po = [], np.zeros_like(w), np.zeros_like(b), []
+                    for i in range(0, N, chunk):
+                        o_, (cx, cw, cb) = grads(fn, (x[i:i + chunk], w, b), (True, True, True), g[i:i + chunk])
+                        po.append(o_); px.append(cx); pw += cw; pb += cb
+                    for what, a_, b_ in (("result", out, np.concatenate(po)), ("input gradient", gx, np.concatenate(px)), ("weight gradient", gw, pw), ("bias gradient", gb, pb)):
+                        if a_ is None or a_.shape != b_.shape or not np.allclose(a_, b_, rtol=1e-9, atol=1e-9):
+                            bad = "%s of the batch of %d differs from the %s over chunks of %d samples (max abs difference %s)" % (
+                                what, N, "sum" if "weight" in what or "bias" in what else "concatenation", chunk, "n/a" if a_ is None or a_.shape != b_.shape else float(np.max(np.abs(a_ - b_))))
+                            break
+                    if bad:
+                        break
+            except Exception as e:
+                bad = "raised %s: %s" % (type(e).__name__, e)
+            if bad:
+                run.violation(name + ".backward.samples_of_a_batch_do_not_interact", "%s, batch of %d: %s" % (name, N, bad), key={"op": name, "batch": N}, replay={"op": name, "batch": N, "what": bad})
+    pools = [("max_pool2d", (17, 17), (1, 2, 17, 17)), ("max_pool2d", (20, 20), (1, 1, 40, 20)), ("avg_pool2d", (17, 17), (1, 1, 17, 34)), ("max_pool1d", 300, (1, 2, 600)), ("max_pool1d", 700, (2, 1, 700)),
+             ("avg_pool1d", 300, (1, 1, 600))]
+    for op, k, shape in pools:
+        x = rng.permutation(int(np.prod(shape))).reshape(shape).astype(np.float64) * 0.01
+        run.rt(("large-window", op, k, shape))
+        try:
+            t = Tensor(x.copy(), requires_grad=True)
+            out = getattr(NF, op)(t, k)
+            g = rng.randn(*out.shape)
+            out.backward(Tensor(g.copy()))
+            exp = np.zeros_like(x)
+            kk = (k, k) if isinstance(k, int) and op.endswith("2d") else k
+            if op.endswith("2d"):
+                for n_, c_, i_, j_ in np.ndindex(*out.shape):
+                    win = x[n_, c_, i_ * kk[0]:(i_ + 1) * kk[0], j_ * kk[1]:(j_ + 1) * kk[1]]
+                    if op.startswith("max"):
+                        a_, b_ = np.unravel_index(np.argmax(win), win.shape)
+                        exp[n_, c_, i_ * kk[0] + a_, j_ * kk[1] + b_] += g[n_, c_, i_, j_]
+                    else:
+                        exp[n_, c_, i_ * kk[0]:(i_ + 1) * kk[0], j_ * kk[1]:(j_ + 1) * kk[1]] += g[n_, c_, i_, j_] / win.size
+            else:
+                for n_, c_, i_ in np.ndindex(*out.shape):
+                    win = x[n_, c_, i_ * k:(i_ + 1) * k]
+                    if op.startswith("max"):
+                        exp[n_, c_, i_ * k + int(np.argmax(win))] += g[n_, c_, i_]
+                    else:
+                        exp[n_, c_, i_ * k:(i_ + 1) * k] += g[n_, c_, i_] / k
+            bad = None if t._grad is not None and t._grad.shape == exp.shape and np.allclose(t._grad, exp, rtol=1e-9, atol=1e-12) else \
+                "input gradient differs from the closed form at %d of %d positions" % (int(np.sum(~np.isclose(t._grad, exp))) if t._grad is not None and t._grad.shape == exp.shape else -1, exp.size)
+        except Exception as e:
+            bad = "raised %s: %s" % (type(e).__name__, e)
+        if bad:
+            run.violation("nn.functional.%s.backward.post[x]" % op, "%s with kernel %s on an operand of shape %s without ties: %s" % (op, k, shape, bad), key={"op": op, "kernel": str(k)},
+                          replay={"op": op, "kernel": str(k), "shape": list(shape), "what": bad})
